@@ -89,6 +89,15 @@ def run(repo: Repo, tier: str) -> Report:
                     "the asymmetric reweighting starts from the zero curve (its first pass is not offset-equivariant; equality after <= 10 passes is a convergence fact)"]
     rep.trusted = ["CPython ast", "C01 (the code's factorisation is the LDL' of the matrix assembled from these coefficients)",
                    "A 1 = 0 and A t = 0 imply (W + lambda A)^-1 W maps affine series to themselves"]
+    fn0 = repo.func("hdc.algo.ops.ws2d", "ws2d")
+    pre = [n for n in ast.walk(fn0) if isinstance(n, (ast.If, ast.While, ast.Try, ast.IfExp, ast.With, ast.Break, ast.Continue, ast.Raise))]
+    rets = [n for n in ast.walk(fn0) if isinstance(n, ast.Return)]
+    if pre or len(rets) != 1:
+        bad = pre[0] if pre else rets[0]
+        rep.ob("R-BAND", FILE, "ws2d", "the solve is one straight-line algorithm: the band extracted from it governs every input", False,
+               f"`{norm_stmt(bad)}` special-cases some inputs ({len(rets)} return statement(s)): for them the result is not (W + lambda A)^-1 W y, "
+               f"so gaps are not filled on the line and reversal / offset commutation need not hold", bad)
+        return rep
     coef, by = extracted_band(repo)
     rep.analysed = {"extracted_band_classes": {k: {kk: str(vv) for kk, vv in v.items()} for k, v in coef.items()}}
     need = {"0": ("diag", "off1", "off2"), "1": ("diag", "off1", "off2"), "ROW": ("diag", "off1", "off2"), "M-1": ("diag", "off1"), "M": ("diag",)}
